@@ -496,6 +496,16 @@ theorem reduction_sound {v : Variant} (hooked : Bool) {s : State} (hr : Reach v 
       (∀ o, l ∈ obsLabels (norm true s) o → l' ∈ obsLabels s o) :=
   sim_step hooked hr hs
 
+/-- `reduction_complete`: conversely the reduction loses nothing — every step of a reachable state
+is matched by the same label from its normal form into states with the same normal form, with the
+same observations.  Together with `reduction_sound`: a reachable state and its normal form are
+bisimilar for observables (the relation is "same normal form"). -/
+theorem reduction_complete {v : Variant} {s : State} (hr : Reach v s) {l : Label} {s' : State}
+    (hs : step v s l = some s') :
+    (∃ x', step v (norm true s) l = some x' ∧ norm true x' = norm true s') ∧
+    (∀ o, l ∈ obsLabels s o → l ∈ obsLabels (norm true s) o) :=
+  ⟨sim_step_rev hr hs, fun _ h => obs_transfer_rev hs h⟩
+
 /-- `accepts_sound`: every state the acceptor keeps after a trace is the normal form of the end
 state of an execution of the LTS from `init` whose observable projection is exactly that trace. -/
 theorem accepts_sound (v : Variant) (reduce hooked eager : Bool) (cap : Nat) (tr : List Obs)
